@@ -203,9 +203,6 @@ func Decode(res *mysql.Result) ([]ColMeta, [][]Value, error) {
 		}
 		rows = append(rows, row)
 	}
-	if len(res.RowDatas) != len(res.Values) {
-		return nil, nil, fmt.Errorf("result has %d row packets but %d value rows", len(res.RowDatas), len(res.Values))
-	}
 	return cols, rows, nil
 }
 
